@@ -851,6 +851,159 @@ static void do_par(void)
     jend();
 }
 
+
+/* ------------------------------------------------------------------ */
+/* Requests of 4 GiB and more (lengths that do not fit 32 bits)        */
+
+#define HCHUNK ((size_t)2 << 20)
+typedef struct { uint8_t *base; size_t maplen; uint8_t *ptr; } Region;
+
+/* a read-only region of <total> bytes in which <pat> (patlen divides HCHUNK)
+   repeats: one 2 MiB memfd mapped over and over; ends flush against PROT_NONE */
+static Region huge_pattern(size_t total, const uint8_t *pat, size_t patlen)
+{
+    Region r;
+    size_t rounded = (total + HCHUNK - 1) / HCHUNK * HCHUNK, off;
+    int fd = memfd_create("drvhuge", 0);
+    uint8_t *tmp;
+    if (fd < 0 || ftruncate(fd, (off_t)HCHUNK) != 0) { perror("memfd"); _exit(2); }
+    tmp = mmap(NULL, HCHUNK, PROT_READ | PROT_WRITE, MAP_SHARED, fd, 0);
+    if (tmp == MAP_FAILED) { perror("mmap"); _exit(2); }
+    for (off = 0; off < HCHUNK; off += patlen) memcpy(tmp + off, pat, patlen);
+    munmap(tmp, HCHUNK);
+    r.maplen = rounded + PAGE;
+    r.base = mmap(NULL, r.maplen, PROT_NONE, MAP_PRIVATE | MAP_ANONYMOUS | MAP_NORESERVE, -1, 0);
+    if (r.base == MAP_FAILED) { perror("mmap"); _exit(2); }
+    for (off = 0; off < rounded; off += HCHUNK)
+        if (mmap(r.base + off, HCHUNK, PROT_READ, MAP_SHARED | MAP_FIXED, fd, 0) == MAP_FAILED) { perror("mmap"); _exit(2); }
+    close(fd);
+    /* the pattern period divides the distance to the end, so the region still starts on a pattern boundary
+       whenever total is a multiple of patlen */
+    r.ptr = r.base + (rounded - total);
+    return r;
+}
+
+/* a zero-filled region of <total> bytes between two PROT_NONE pages, ending flush against the second */
+static Region huge_anon(size_t total, int writable)
+{
+    Region r;
+    size_t rounded = (total + PAGE - 1) / PAGE * PAGE;
+    r.maplen = rounded + 2 * PAGE;
+    r.base = mmap(NULL, r.maplen, PROT_NONE, MAP_PRIVATE | MAP_ANONYMOUS | MAP_NORESERVE, -1, 0);
+    if (r.base == MAP_FAILED) { perror("mmap"); _exit(2); }
+    if (mprotect(r.base + PAGE, rounded, writable ? (PROT_READ | PROT_WRITE) : PROT_READ) != 0) { perror("mprotect"); _exit(2); }
+    r.ptr = r.base + PAGE + (rounded - total);
+    return r;
+}
+
+/* par_huge k= o= gib= rem= enc= blk=<one block> [tweak=<8 bytes>]:
+   every input block is <blk> (every tweak <tweak>), so every output block must
+   be one and the same value; logged: that value and how many blocks differ from it */
+static void do_par_huge(void)
+{
+    const char *kind = arg("k");
+    int is128 = !strcmp(kind, "s128"), is64 = !strcmp(kind, "s64");
+    size_t bs = (size_t)kind_bs(kind);
+    int o = (int)argi("o", 0), ret = -1, enc = (int)argi("enc", 1);
+    void *obj = is128 ? (void *)&p128[o] : is64 ? (void *)&p64[o] : (void *)&pm[o];
+    size_t total = ((size_t)argu("gib", 4) << 30) + (size_t)argu("rem", 0);
+    uint8_t blk[16], tw[8];
+    Region in, out, twr;
+    size_t i, nb = total / bs;
+    long diff = 0;
+    hexbytes(arg("blk"), blk, sizeof blk);
+    jbegin("par_huge"); echo_common();
+    jint("gib", (long)argu("gib", 4)); jint("rem", (long)argu("rem", 0)); jint("enc", enc);
+    jbytes("in", blk, bs);
+    in = huge_pattern(total, blk, bs);
+    twr.ptr = NULL; twr.base = NULL; twr.maplen = 0;
+    if (!is128 && !is64) {
+        hexbytes(arg("tweak"), tw, sizeof tw);
+        jbytes("tweak", tw, 8);
+        twr = huge_pattern(total, tw, 8);
+    }
+    out = huge_anon(total, 1);
+    if (arg("rr")) jint("rr", argi("rr", 0));
+    call_begin();
+    {
+        Skinny128ParallelECB_t *h = (Skinny128ParallelECB_t *)obj;
+        unsigned dummy = 0;
+        unsigned *rp = (arg("rr") && h->ctx) ? ctx_rounds(kind, h->ctx) : &dummy;
+        WITH_RR(rp, {
+            if (is128) ret = enc ? skinny128_parallel_ecb_encrypt(out.ptr, in.ptr, total, obj) : skinny128_parallel_ecb_decrypt(out.ptr, in.ptr, total, obj);
+            else if (is64) ret = enc ? skinny64_parallel_ecb_encrypt(out.ptr, in.ptr, total, obj) : skinny64_parallel_ecb_decrypt(out.ptr, in.ptr, total, obj);
+            else ret = mantis_parallel_ecb_crypt(out.ptr, in.ptr, twr.ptr, total, obj);
+        });
+    }
+    call_end();
+    jint("ret", ret);
+    for (i = 1; i < nb; ++i)
+        if (memcmp(out.ptr + i * bs, out.ptr, bs) != 0) ++diff;
+    jbytes("out0", out.ptr, ret && nb ? bs : 0);
+    jint("diff", diff);
+    munmap(out.base, out.maplen);
+    munmap(in.base, in.maplen);
+    if (twr.base) munmap(twr.base, twr.maplen);
+    log_alloc(NULL, 0);
+    jend();
+}
+
+/* ctr_huge k= o= gib= rem= samples=i1,i2,...: all-zero input, so the output is
+   the keystream; logged: the whole blocks number i1, i2, ... (0-based, counted
+   from the start of the request) and the last <tail> bytes of the request */
+static void do_ctr_huge(void)
+{
+    const char *kind = arg("k");
+    int is128 = !strcmp(kind, "s128"), is64 = !strcmp(kind, "s64");
+    size_t bs = (size_t)kind_bs(kind);
+    int o = (int)argi("o", 0), ret = -1;
+    void *obj = is128 ? (void *)&c128[o] : is64 ? (void *)&c64[o] : (void *)&cm[o];
+    size_t total = ((size_t)argu("gib", 4) << 30) + (size_t)argu("rem", 0);
+    size_t tail = (size_t)argu("tail", 0);
+    Region in, out;
+    const char *sp = arg("samples");
+    jbegin("ctr_huge"); echo_common();
+    jint("gib", (long)argu("gib", 4)); jint("rem", (long)argu("rem", 0));
+    in = huge_anon(total, 0);
+    out = huge_anon(total, 1);
+    if (arg("rr")) jint("rr", argi("rr", 0));
+    call_begin();
+    {
+        void *ctx = ((Skinny128CTR_t *)obj)->ctx;
+        unsigned dummy = 0;
+        unsigned *rp = (arg("rr") && ctx) ? ctx_rounds(kind, ctx) : &dummy;
+        WITH_RR(rp, {
+            ret = is128 ? skinny128_ctr_encrypt(out.ptr, in.ptr, total, obj) : is64 ? skinny64_ctr_encrypt(out.ptr, in.ptr, total, obj) : mantis_ctr_encrypt(out.ptr, in.ptr, total, obj);
+        });
+    }
+    call_end();
+    jint("ret", ret);
+    jkey("samples"); jput("[");
+    if (ret && sp) {
+        int first = 1;
+        while (*sp) {
+            char *e; unsigned long idx = strtoul(sp, &e, 10);
+            char t[48];
+            if ((idx + 1) * bs <= total) {
+                if (!first) jput(",");
+                first = 0;
+                snprintf(t, sizeof t, "{\"i\":%lu", idx); jput(t);
+                jbytes("b", out.ptr + idx * bs, bs);
+                jput("}");
+            }
+            sp = (*e == ',') ? e + 1 : e;
+            if (e == sp && *e) break;
+        }
+    }
+    jput("]");
+    jint("tail", (long)tail);
+    jbytes("tailb", out.ptr + total - tail, ret ? tail : 0);
+    munmap(out.base, out.maplen);
+    munmap(in.base, in.maplen);
+    log_alloc(NULL, 0);
+    jend();
+}
+
 /* Verify the layout assumption used by reduced-round CTR/parallel runs:
    the heap context starts with a key schedule whose first member is rounds.
    Logged as a fact; the generator only uses rr= on ctr/par when it holds. */
@@ -1021,6 +1174,8 @@ static int run_lines(char **lines, int from, int to)
         else if (!strcmp(opname, "quiesce")) { jbegin("quiesce"); jint("lv", live_blocks); jend(); }
         else if (!strncmp(opname, "ks_", 3)) do_ks();
         else if (!strncmp(opname, "mk_", 3)) do_mk();
+        else if (!strcmp(opname, "ctr_huge")) do_ctr_huge();
+        else if (!strcmp(opname, "par_huge")) do_par_huge();
         else if (!strncmp(opname, "ctr_", 4)) do_ctr();
         else if (!strncmp(opname, "par_", 4)) do_par();
         else { fprintf(stderr, "drv: unknown op %s\n", opname); _exit(2); }
